@@ -152,6 +152,36 @@ func htmlElemText(tag string) func(string) (string, bool) {
 	}
 }
 
+// htmlLastElemText extracts the text of the LAST element with that name.
+func htmlLastElemText(tag string) func(string) (string, bool) {
+	return func(out string) (string, bool) {
+		doc, err := xhtml.Parse(strings.NewReader(out))
+		if err != nil {
+			return "", false
+		}
+		var res string
+		found := false
+		var walk func(n *xhtml.Node)
+		walk = func(n *xhtml.Node) {
+			if n.Type == xhtml.ElementNode && n.Data == tag {
+				found = true
+				var b strings.Builder
+				for c := n.FirstChild; c != nil; c = c.NextSibling {
+					if c.Type == xhtml.TextNode {
+						b.WriteString(c.Data)
+					}
+				}
+				res = b.String()
+			}
+			for c := n.FirstChild; c != nil; c = c.NextSibling {
+				walk(c)
+			}
+		}
+		walk(doc)
+		return res, found
+	}
+}
+
 func htmlAttr(tag, attr string) func(string) (string, bool) {
 	return func(out string) (string, bool) {
 		doc, err := xhtml.Parse(strings.NewReader(out))
@@ -284,6 +314,12 @@ var hosts = []host{
 	{name: "html script type=text/x-tmpl;a=b", hostType: "text/html", build: func(p string) string { return "<script type=\"text/x-tmpl; a=b\">" + p + "</script>" }, wantType: "text/x-tmpl", wantParams: "a=b;", pre: ident, extract: htmlElemText("script"), rawText: true},
 	{name: "html style", hostType: "text/html", build: func(p string) string { return "<style>" + p + "</style>" }, wantType: "text/css", pre: ident, extract: htmlElemText("style"), rawText: true},
 	{name: "html style type=text/css", hostType: "text/html", build: func(p string) string { return "<style type=\"text/css\">" + p + "</style>" }, wantType: "text/css", pre: ident, extract: htmlElemText("style"), rawText: true},
+	// per-element state must not leak: an earlier typed raw-text element WITHOUT content, then an untyped one
+	{name: "html style after empty typed script", hostType: "text/html", build: func(p string) string { return "<script type=module src=a.js></script><style>" + p + "</style>" }, wantType: "text/css", pre: ident, extract: htmlLastElemText("style"), rawText: true},
+	{name: "html script after empty ld+json script", hostType: "text/html", build: func(p string) string {
+		return "<script type=\"application/ld+json\" src=x></script><script>" + p + "</script>"
+	}, wantType: "application/javascript", pre: ident, extract: htmlLastElemText("script"), rawText: true},
+	{name: "html script after empty unknown-typed style", hostType: "text/html", build: func(p string) string { return "<style type=\"text/x-unknown\"></style><script>" + p + "</script>" }, wantType: "application/javascript", pre: ident, extract: htmlLastElemText("script"), rawText: true},
 	{name: "html style= attribute", hostType: "text/html", build: func(p string) string { return "<p style=\"" + attrEscape(p) + "\">x</p>" }, wantType: "text/css", wantParams: "inline=1;", pre: strings.TrimSpace, extract: htmlAttr("p", "style"), attr: true},
 	{name: "html onclick= attribute", hostType: "text/html", build: func(p string) string { return "<p onclick=\"" + attrEscape(p) + "\">x</p>" }, wantType: "application/javascript", wantParams: "inline=1;", pre: jsPre, extract: htmlAttr("p", "onclick"), attr: true},
 	{name: "html onload=javascript:", hostType: "text/html", build: func(p string) string { return "<p onload=\" JavaScript:" + attrEscape(p) + "\">x</p>" }, wantType: "application/javascript", wantParams: "inline=1;", pre: func(p string) string { return jsPre(" JavaScript:" + p) }, extract: htmlAttr("p", "onload"), attr: true},
